@@ -10,6 +10,11 @@ Rec == ndJsonDeserialize(IOEnv.TRACE)
 
 Clause(i, name, cond) == IF cond THEN TRUE ELSE PrintT(<<"REJECT", i, name>>)
 
+\* universally quantified clause: also prints the first witness that fails (DETAIL line, for diagnosis / replay)
+ClauseAll(i, name, S, P(_)) ==
+    IF \A x \in S : P(x) THEN TRUE
+    ELSE PrintT(<<"REJECT", i, name>>) /\ PrintT(<<"DETAIL", i, name, CHOOSE x \in S : ~P(x)>>)
+
 \* every harness record carries these three flags
 Sane(i, r) == /\ Clause(i, "panic", ~r.out.panic)
               /\ Clause(i, "timeout", ~r.out.timeout)
